@@ -325,6 +325,10 @@ def el_scenarios(tier: str) -> List[Dict[str, Any]]:
         dict(name="dispose-inside", threads=[[["imm", 1], ["imm", 2]], [["rel", 3, 1]]], bodies={"1": [["dispose"]]}, horizon=3),
         # H  a long action: items become due while the loop is busy
         dict(name="busy-loop", threads=[[["imm", 1], ["rel", 2, 1]], [["sleep", 1], ["imm", 3], ["rel", 4, 1]]], bodies={"1": [["sleep", 3]]}, horizon=6),
+        # J  cancel RETURNS while an earlier action of the same batch is still running: the later item must not run
+        #    (Commit lies after the previous action ended - a cancellation test hoisted to collection time is caught here)
+        dict(name="cancel-while-busy", threads=[[["imm", 1], ["imm", 2], ["rel", 3, 1]], [["sleep", 1], ["cancel", 2], ["cancel", 3]]],
+             bodies={"1": [["sleep", 2]]}, horizon=4),
         # I  cancel from the other thread (prologue scheduled the item)
         dict(name="cross-cancel", pro=[["rel", 1, 2], ["imm", 2]], threads=[[["cancel", 1], ["imm", 3]], [["cancel", 2], ["reltd", 4, 2]]], horizon=5),
     ]
